@@ -109,6 +109,9 @@ pub fn seq_cfg(focus: &'static str, seed: u64, index: u64, clean_only: bool) -> 
             "C09" => allow.upsert_on_expired = true,
             "C01" => allow.overweight_update = true,
             "C17" => { allow = Allow::all(); }
+            // a put over an expired, unswept entry: refused today (a recorded C07 finding, which ends the history); if it were admitted the
+            // counters and the accounting would have to stay exact
+            "C16" | "C05" => allow.put_on_expired = true,
             _ => {}
         }
     }
